@@ -16,6 +16,11 @@ pub fn read_config_file(
             return Err(message);
         }
         let line = boxed_line.unwrap();
+        // settings end up in environment variables, which cannot hold a NUL character (env::set_var panics on it)
+        if line.contains('\0') {
+            let message = format!("NUL character in the line: {}", line.replace('\0', SYMBOL.empty_string));
+            return Err(message);
+        }
         let without_comment = strip_comment(line);
         let without_whitespaces = strip_whitespaces(without_comment.to_string());
         let is_table = without_whitespaces.starts_with(SYMBOL.opening_square_bracket);
